@@ -584,8 +584,11 @@ MUTANTS += [
   "old": "    if number_pref < 0:\n        sign = \"-\"\n        number_pref *= -1\n    else:\n        sign = \"+\"",
   "new": "    if number_pref > 0:\n        sign = \"-\"\n    else:\n        sign = \"+\"\n        number_pref *= -1"},
  {"id": "c17-pref-symbol-multiplicity", "prop": "C17", "file": _GC,
-  "old": "        [obj.name for obj in term.objects if isinstance(obj.base, Symbol)\n         for _ in range(obj.exponent)]",
-  "new": "        [obj.name for obj in term.objects if isinstance(obj.base, Symbol)]"},
+  "old": "        [obj.base.name for obj in term.objects\n         if isinstance(obj.base, Symbol) for _ in range(obj.exponent)]",
+  "new": "        [obj.base.name for obj in term.objects\n         if isinstance(obj.base, Symbol)]"},
+ {"id": "c17-pref-symbol-name-from-obj", "prop": "C17", "file": _GC,
+  "old": "        [obj.base.name for obj in term.objects\n         if isinstance(obj.base, Symbol) for _ in range(obj.exponent)]",
+  "new": "        [obj.name for obj in term.objects\n         if isinstance(obj.base, Symbol) for _ in range(obj.exponent)]"},
  {"id": "c17-pref-backend-formatter-swapped", "prop": "C17", "file": _GC,
   "old": "    elif backend == \"libtensor\":  # C++\n        number_pref = _format_cpp_prefactor(number_pref)",
   "new": "    elif backend == \"libtensor\":  # C++\n        number_pref = _format_python_prefactor(number_pref)"},
